@@ -1367,13 +1367,14 @@ class DiameterMessage:
             return False
         
         #: In case a key has been provided as such defined in attribute name
-        if avp_key in self.__dict__:
+        #: (the message's own attributes - header, AVP list - are not AVPs)
+        if isinstance(self.__dict__.get(avp_key), DiameterAVP):
             return True
 
         #: In case a key has been provided as such defined by the AVP name in
         #: lower case
         avp_name = get_avp_name_formatted(avp_key)
-        if avp_name in self.__dict__:
+        if isinstance(self.__dict__.get(avp_name), DiameterAVP):
             return True
 
         return False
